@@ -898,6 +898,7 @@ func (e *kvElection) StopWithContext(ctx context.Context, opts StopOptions) erro
 	}
 
 	wasLeader := e.isLeader.Load()
+	stoppedCtx := e.ctx
 
 	currentState := StateInit
 	if s := e.state.Load(); s != nil {
@@ -983,9 +984,13 @@ func (e *kvElection) StopWithContext(ctx context.Context, opts StopOptions) erro
 		return ctx.Err()
 	}
 
+	// Start may have begun a new run in the meantime (it only waits for the
+	// old run's goroutines); its context must be left alone.
 	e.mu.Lock()
-	e.ctx = nil
-	e.ctxForLog.Store(nil)
+	if e.ctx == stoppedCtx {
+		e.ctx = nil
+		e.ctxForLog.Store(nil)
+	}
 	e.mu.Unlock()
 
 	log := e.getLogger()
